@@ -41,7 +41,7 @@ def r1(ctx):
     table = dispatch.decoder_table(ctx)
     kl = F(HF, "key_length")
     for op in (0x01, 0x11, 0x02, 0x12, 0x03, 0x13):
-        ok = False
+        oks = []
         why = "no decoded request"
         for variant, ps in table[op]["paths"].items():
             for p in ps:
@@ -55,18 +55,22 @@ def r1(ctx):
                 v_ok = isinstance(v, tuple) and v[0] == "bufslice" and to_lin(v[2]) == ({kl: 1}, 8) and F(HF, "body_length") in atoms(v[3])
                 same = k_ok and v_ok and rd(fl, 0, 4) and rd(ex, 4, 4) and len({fl[1], ex[1], k[1], v[1]}) == 1 and buffer_root_ok(k[1])
                 hdr_ok = field_of(req, "header") is not TOP and (F(HF, "cas") in atoms(field_of(req, "header", "cas")) or field_of(req, "header") == HF or isinstance(field_of(req, "header"), Struct))
-                ok = same and hdr_ok
-                why = "flags=%s expiration=%s key=%s value=%s" % (short(fl, 50), short(ex, 50), short(k, 70), short(v, 90))
+                oks.append(bool(same and hdr_ok))
+                if not oks[-1] or why == "no decoded request":
+                    why = "flags=%s expiration=%s key=%s value=%s" % (short(fl, 50), short(ex, 50), short(k, 70), short(v, 90))
+        ok = bool(oks) and all(oks)  # every path that decodes the frame slices it this way
         rep.check(ok, "set-layout:%#04x" % op, "flags@0 expiration@4 key@8 value@8+key_length", "set-family frame %#04x is sliced as %s" % (op, why), safe_loc(f, CODEC + "::parse_set_request"))
     for op, parser in ((0x00, "parse_get_request"), (0x09, "parse_get_request"), (0x0C, "parse_get_request"), (0x0D, "parse_get_request"), (0x04, "parse_delete_request"), (0x14, "parse_delete_request")):
-        ok = False
+        oks = []
         why = "no decoded request"
         for variant, ps in table[op]["paths"].items():
             for p in ps:
                 req = field_of(p.ret, "0", "0", "0")
                 k = field_of(req, "key")
-                ok = isinstance(k, tuple) and k[0] == "bufslice" and k[2] == 0 and k[3] == kl and buffer_root_ok(k[1])
-                why = "key=%s" % short(k, 100)
+                oks.append(isinstance(k, tuple) and k[0] == "bufslice" and k[2] == 0 and k[3] == kl and buffer_root_ok(k[1]))
+                if not oks[-1] or why == "no decoded request":
+                    why = "key=%s" % short(k, 100)
+        ok = bool(oks) and all(oks)
         rep.check(ok, "key-layout:%#04x" % op, "key = body[0..key_length]", "frame %#04x: %s" % (op, why), safe_loc(f, CODEC + "::" + parser))
     return rep
 
@@ -75,8 +79,6 @@ def r2(ctx):
     rep = Report("C01.R2", "request -> record: handlers store Record{value<-req.value, flags<-req.flags, ttl<-req.expiration, cas<-req.header.cas} under req.key", floor=3)
     f = ctx.facts
     for meth, argn, ops in (("set", "set_req", [None]), ("add_replace", "request", [0x02, 0x03])):
-        b = f.one(HANDLER + "::" + meth)
-        rep.analysed(b)
         for op in ops:
             if op is None:
                 req = P(argn)
@@ -84,7 +86,9 @@ def r2(ctx):
                 hdr = Struct(None, None, 0, OrderedDict([("opcode", op)]), F(P(argn), "header"))
                 req = Struct(None, None, 0, OrderedDict([("header", hdr)]), P(argn))
             I = Interp(f, policy=memc_opaque)
-            paths = I.run(b, [P("self"), req, P("response_header")])
+            b, hargs = dispatch.handler_body_args(ctx, meth, argn, op, payload=req)
+            rep.analysed(b)
+            paths = I.run(b, hargs)
             ok = bool(paths)
             why = ""
             for p in paths:
@@ -175,10 +179,10 @@ def r4(ctx):
             ok = False
     rep.check(ok, "MemcStore::get", "MemcStore::get = store.get(key)", "MemcStore::get does not simply forward to the store's get for its key", mg.loc())
     # handler
-    hb = f.one(HANDLER + "::get")
+    hb, hargs = dispatch.handler_body_args(ctx, "get", "get_request")
     I = Interp(f, policy=memc_opaque)
     n = 0
-    for p in I.run(hb, [P("self"), P("get_request"), P("response_header")]):
+    for p in I.run(hb, hargs):
         calls = [e for e in p.events if e.kind == "call" and e.name.startswith(MEMC + "::")]
         if len(calls) != 1 or calls[0].name != MEMC + "::get":
             rep.bad("handler:get:store-call", "BinaryHandler::get does not make exactly one MemcStore::get call", hb.loc())
